@@ -3,9 +3,9 @@
 from pipeline import run_pipeline
 
 TIERS = {
-    "quick": dict(mc=[(f"MC_Wakeup_{s}.cfg", 4) for s in ("stream", "mio6", "mio8", "awrite", "await", "nk_dv", "nk_vd", "nk_vdv", "nk_ddv")],
-                  replay_limit=3500, random=dict(runs=300, events=60)),
-    "thorough": dict(mc=[(f"MC_Wakeup_{s}.cfg", 4) for s in ("stream", "mio6", "mio8", "awrite", "await", "nk_dv", "nk_vd", "nk_vdv", "nk_ddv")] + [("MC_Wakeup_stream3.cfg", 8), ("MC_Wakeup_awrite3.cfg", 8), ("MC_Wakeup_nk_vddv.cfg", 8)],
+    "quick": dict(mc=[(f"MC_Wakeup_{s}.cfg", 4) for s in ("stream", "mio6", "mio8", "awrite", "await", "nk_dv", "nk_vd", "nk_vdv", "nk_ddv", "stream_ohd", "mio6_ohd", "mio8_doh", "stream_hoh", "mio8_oohd")],
+                  replay_limit=5000, random=dict(runs=300, events=60)),
+    "thorough": dict(mc=[(f"MC_Wakeup_{s}.cfg", 4) for s in ("stream", "mio6", "mio8", "awrite", "await", "nk_dv", "nk_vd", "nk_vdv", "nk_ddv", "stream_ohd", "mio6_ohd", "mio8_doh", "stream_hoh", "mio8_oohd")] + [("MC_Wakeup_stream3.cfg", 8), ("MC_Wakeup_awrite3.cfg", 8), ("MC_Wakeup_nk_vddv.cfg", 8)],
                      replay_limit=40000, random=dict(runs=6000, events=120)),
 }
 ASSUME = [
